@@ -5,16 +5,19 @@
    pugixml are neither modelled nor proved: their behaviour is validated document by document by props/C08.py.
 
    NOT PROVED (checked by the run only, or not at all):
-   - soundness of the reference parsers in the other direction (every accepted text is an RFC 8259 / XML 1.0 text):
-     cross-checked on every run against Python's json and xml.etree (expat) on produced, re-rendered and mutated texts;
-   - T_C08_load_invariant for std::map targets under member reordering, and for nested documents as one statement
-     (proved: the member lookup of classes is independent of member positions; numeric spelling per number);
+   - soundness of the reference XML parser in the other direction (every accepted text is an XML 1.0 text of the
+     subset): cross-checked on every run against xml.etree (expat) on produced, re-rendered and mutated texts.  For
+     JSON both directions are theorems (T_C08_json_accepts_exactly); the run still compares with Python's json;
+   - T_C08_load_invariant as ONE statement over all free choices of a rendering (proved separately: member order at
+     every depth for every target type, T_C08_load_member_order_any; numeric spelling per number; white space and
+     string spellings do not reach the DOM by T_C08_json_accepts_exactly, for the reference parser, not for RapidJSON);
    - anything about white space / escapes / character references / encodings at load time (third-party parsers):
      validated by the re-rendering loop; T_C08_options_passed covers the JSON string / stream paths of the model (the
      XML flags and the layout the writers produce from the indent options are observed: every pretty document is checked
      for the configured padding character and count per nesting level);
    - the XML adapter model has no theorems of its own in this file (see Properties_C01jx.v for its defects). *)
-From BS Require Import Base UtfSpec UtfModel JxJsonSpec JxJsonProofs JxXmlSpec JxXmlProofs JxModel JxProofs.
+From BS Require Import Base UtfSpec UtfModel JxJsonSpec JxJsonProofs JxJsonSound JxXmlSpec JxXmlProofs JxModel JxProofs JxMemberOrder.
+From Coq Require Import Permutation.
 Local Open Scope N_scope.
 
 (* ---------------------------------------------------------------- reference syntax: JSON *)
@@ -38,6 +41,39 @@ Theorem T_C08_json_parser_total : (forall s, json_parse_cps s <> JFuel) /\
   (forall bytes, Forall (fun b => b < 256) bytes -> json_parse bytes <> JFuel).
 Proof. split; [exact json_parse_cps_total | exact json_parse_total]. Qed.
 Print Assumptions T_C08_json_parser_total.
+
+(* The parser accepts exactly the RFC 8259 texts, and returns the DOM they denote.  `renders s d` (JxJsonSound.v) is
+   the generative description, with no reference to the parser: s is the token sequence of d (structural characters,
+   the three literal names, strings, numbers; tokens_of), where
+     - any number of the four white space characters may stand before, between and after the tokens (jt_ws);
+     - a string is a quotation mark, for every code point of the value one of its spellings, a quotation mark; the
+       spellings (cp_spells) are: itself when it is a Unicode scalar value >= U+0020 other than the quotation mark and
+       the reverse solidus; a two-character escape (the eight of section 7, the solidus among them); \uXXXX with four
+       hex digits of either case for a non-surrogate value; a \uD8xx\uDCxx pair for a supplementary code point;
+     - a number is its own lexeme (the DOM carries it) and the lexeme is of the RFC number grammar (num_ok);
+     - the literal names and structural characters have one spelling each.
+   Both directions, at the code point level and for bytes (strict UTF-8: utf8_decode is the decoder of the UTF family).
+   Consequently nothing else is accepted: no trailing comma, no leading zero, no lone surrogate escape, no raw control
+   character, no second value (every such text has no `renders` derivation). *)
+Theorem T_C08_json_accepts_exactly :
+  (forall s d, json_parse_cps s = JOk d <-> renders s d) /\
+  (forall bytes d, json_parse bytes = JOk d <-> exists cps, utf8_decode bytes = Some (Some cps) /\ renders cps d).
+Proof. split; [exact json_cps_exact | exact json_parse_exact]. Qed.
+Print Assumptions T_C08_json_accepts_exactly.
+
+(* every DOM that has a rendering (hence every DOM the parser returns) is well-formed: strings and names consist of
+   Unicode scalar values, numbers are RFC lexemes; and every well-formed DOM has one (its compact print) *)
+Theorem T_C08_json_renderings_wf : (forall s d, renders s d -> jwf d) /\ (forall d, jwf d -> renders (json_print_cps d) d).
+Proof. split; [exact renders_wf | intros d H; apply json_cps_sound, json_cps_parse_print; exact H]. Qed.
+Print Assumptions T_C08_json_renderings_wf.
+
+(* one rendering using every free choice: white space in each position, the four spellings, hex digits of both cases *)
+Example T_C08_json_renders_example :
+  renders ([32; 123; 10; 34; 97; 92; 47; 92; 117; 48; 48; 69; 57; 92; 117; 100; 56; 51; 68; 92; 117; 68; 69; 48; 48; 34; 9; 58; 13; 91;
+            49; 46; 48; 101; 43; 50; 32; 44; 116; 114; 117; 101; 93; 32; 125; 10])
+          (JObj [([97; 47; 233; 128512], JArr [JNum [49; 46; 48; 101; 43; 50]; JBool true])]).
+Proof. exact renders_example. Qed.
+Print Assumptions T_C08_json_renders_example.
 
 Example T_C08_json_example :
   json_parse_cps [32; 123; 34; 97; 34; 32; 58; 91; 49; 46; 53; 101; 51; 44; 34; 92; 117; 100; 56; 51; 100; 92; 117; 100; 101; 48; 48; 92; 110; 34; 93; 125; 10] =
@@ -111,6 +147,42 @@ Theorem T_C08_load_member_order : forall i2d o fields m1 a b m2, key_eqb (fst a)
   load_json i2d o (TyObj fields) (RObj (m1 ++ a :: b :: m2)) = load_json i2d o (TyObj fields) (RObj (m1 ++ b :: a :: m2)).
 Proof. exact load_class_member_order. Qed.
 Print Assumptions T_C08_load_member_order.
+
+(* Member order, in general.  `reordered d d'` (JxMemberOrder.v): d' is d with the members of any of its objects, at
+   any depth, permuted (ro_obj: the member values reordered inside, then any Permutation of the members; ro_arr: item
+   by item).  `members_distinct d`: no object of d has two members of the same name (with two, FindMember takes the
+   first and the order does matter).  Then every target type of the model - classes, std::map, sequences, optionals and
+   smart pointers, scalars, nested in any way - loads d and d' alike: the same value, or both raise; and when the
+   target type contains no std::map (map_free) the outcomes are equal, error included.  For a std::map target the error
+   may differ: the map is filled in document order (VisitKeys), so which of two failing members is met first depends on
+   the order (second conjunct: a witness). *)
+Theorem T_C08_load_member_order_any : forall i2d o t d d', reordered d d' -> members_distinct d = true ->
+  osimb (map_free t) (load_json i2d o t d) (load_json i2d o t d') /\
+  (map_free t = true -> load_json i2d o t d = load_json i2d o t d').
+Proof.
+  intros i2d o t d d' H Hd. split; [apply load_json_member_order; assumption | intros Hm; apply load_json_member_order_eq; assumption].
+Qed.
+Print Assumptions T_C08_load_member_order_any.
+
+(* the reorderings include every permutation of the members of an object, and a reordering inside a member followed by
+   a permutation; the old statement (two neighbours) is the instance reordered_swap *)
+Theorem T_C08_reordered_permutations :
+  (forall m m', Permutation m m' -> reordered (RObj m) (RObj m')) /\
+  (forall m1 k x x' m2 m', reordered x x' -> Permutation (m1 ++ (k, x') :: m2) m' -> reordered (RObj (m1 ++ (k, x) :: m2)) (RObj m')) /\
+  (forall l l', Forall2 reordered l l' -> reordered (RArr l) (RArr l')).
+Proof. split; [exact reordered_perm | split; [exact reordered_inside | exact ro_arr]]. Qed.
+Print Assumptions T_C08_reordered_permutations.
+
+Example T_C08_load_member_order_example : forall i2d,
+  (load_json i2d mkT (TyMap (TyInt U8)) (RObj [([97], RStr [120]); ([98], RInt 300)]) = Err EMismatch /\
+   load_json i2d mkT (TyMap (TyInt U8)) (RObj [([98], RInt 300); ([97], RStr [120])]) = Err EOverflow) /\
+  (let t := TyObj [([109], FElem, TyMap (TyObj [([120], FElem, TyInt I32); ([121], FElem, TyStr)])); ([110], FElem, TyBool)] in
+   let d  := RObj [([109], RObj [([97], RObj [([120], RInt 1); ([121], RStr [117])]); ([98], RObj [([120], RInt 2); ([121], RStr [118])])]); ([110], RBool true)] in
+   let d' := RObj [([110], RBool true); ([109], RObj [([98], RObj [([121], RStr [118]); ([120], RInt 2)]); ([97], RObj [([120], RInt 1); ([121], RStr [117])])])] in
+   load_json i2d mkT t d = load_json i2d mkT t d' /\
+   load_json i2d mkT t d = Ok (VObj [([109], VObj [([97], VObj [([120], VInt 1); ([121], VStr [117])]); ([98], VObj [([120], VInt 2); ([121], VStr [118])])]); ([110], VBool true)])).
+Proof. intros i2d. split; [exact (map_error_depends_on_order i2d) | exact (member_order_example i2d)]. Qed.
+Print Assumptions T_C08_load_member_order_example.
 
 (* ---------------------------------------------------------------- the output options reach the writer *)
 
